@@ -37,7 +37,6 @@ from insights.formats._json import JsonFormat, JsonFormatterAdapter
 from insights.formats._yaml import YamlFormat, YamlFormatterAdapter
 
 KNOWN_SKIP_STUB = "skip-stub-anonymous"
-KNOWN_YAML_ADAPTER = "yaml-adapter-arguments"
 LIMIT_KEY = "max_detail_length"
 
 
@@ -928,27 +927,21 @@ def evaluate(rs, chk=None):
             b = rs.broker()
             buf = io.StringIO()
             raised = None
-            if f["kind"] == "json":
-                # the whole public path: adapter built from the options, preprocess / run / postprocess
-                adapter.preprocess(b)
-                adapter.formatter.stream = buf
-                dr.run(rs.graph, broker=b)
-                fmt = adapter.formatter
-                try:
-                    adapter.postprocess(b)
-                    shown = json.loads(buf.getvalue())
-                except Exception as e:
-                    raised = e
-            else:
-                # YamlFormatterAdapter.preprocess mis-binds its arguments (known finding yaml-adapter-arguments,
-                # witnessed separately): the formatter is built the way the repo's own test builds it
-                fmt = YamlFormat(b, missing=adapter.missing, show_rules=adapter.show_rules, stream=buf)
-                try:
-                    with fmt:
-                        dr.run(rs.graph, broker=b)
-                    shown = yaml.unsafe_load(buf.getvalue())
-                except Exception as e:
-                    raised = e
+            # the whole public path for both formats: adapter built from the parsed options, preprocess / run /
+            # postprocess.  The formatter writes to the stream it was constructed with (sys.stdout by default): it
+            # is redirected only if it is a stream at all, so a mis-bound argument is not papered over.
+            adapter.preprocess(b)
+            fmt = adapter.formatter
+            if hasattr(fmt.stream, "write"):
+                fmt.stream = buf
+            dr.run(rs.graph, broker=b)
+            try:
+                adapter.postprocess(b)
+                shown = json.loads(buf.getvalue()) if f["kind"] == "json" else yaml.unsafe_load(buf.getvalue())
+                if not isinstance(shown, dict):
+                    raise ValueError("formatter printed %r" % (buf.getvalue()[:80],))
+            except Exception as e:
+                raised = e
             if raised is not None:
                 shown = {"!formatter raised": type(raised).__name__}
                 fails.append(("%s formatter raised %s: %s" % (f["kind"], type(raised).__name__, raised), None))
@@ -1028,24 +1021,52 @@ def witness_skip_stub():
             and "max_detail_length_error" in skips[0]), [dict(s) for s in skips]
 
 
-def witness_yaml_adapter():
-    """`insights-run -f yaml -S fail`: the adapter hands (broker, missing, render_content, show_rules) to
-    YamlFormat(broker, missing, show_rules, stream): -S is lost and the stream is a list"""
-    rs = RuleSet(dict(WITNESS_CASE, limit=65535, bases=[{"id": 0, "how": "seed"}]))
-    adapter = parse_args("yaml", {"missing": False, "fail_only": False, "show": ["pass"]})
+YAML_REGRESSION_CASE = {
+    "limit": 65535, "store_skips": False,
+    "bases": [{"id": 0, "how": "seed"}],
+    "rules": [{"id": 1, "module": MODULES[0], "requires": [0], "alo": [], "optional": [], "ignore": [], "enabled": True,
+               "tags": None, "links": None, "act": {"k": "ret", "cls": "make_fail", "key": "K1", "kw": []}},
+              {"id": 2, "module": MODULES[0], "requires": [0], "alo": [], "optional": [], "ignore": [], "enabled": True,
+               "tags": None, "links": None, "act": {"k": "ret", "cls": "make_pass", "key": "K2", "kw": []}}],
+    "fmts": [{"kind": "yaml", "missing": False, "fail_only": False, "show": ["pass"]}],
+}
+
+
+def regression_yaml_adapter():
+    """fixed 4daf5f3 — `insights-run -f yaml -S pass`: the adapter used to hand (broker, missing, render_content,
+    show_rules) to YamlFormat(broker, missing, show_rules, stream): -S was lost and the stream was a list.
+    Now: the formatter gets the selection, prints, and prints exactly the pass entry.  Returns (problems, info)."""
+    rs = RuleSet(YAML_REGRESSION_CASE)
+    adapter = parse_args("yaml", YAML_REGRESSION_CASE["fmts"][0])
     b = rs.broker()
     adapter.preprocess(b)
-    lost = adapter.formatter.show_rules != adapter.show_rules
-    nostream = not hasattr(adapter.formatter.stream, "write")
+    fmt = adapter.formatter
+    problems = []
+    info = {"formatter.show_rules": repr(fmt.show_rules), "adapter.show_rules": adapter.show_rules,
+            "stream": type(fmt.stream).__name__}
+    if fmt.show_rules != adapter.show_rules:
+        problems.append("the -S selection %r reached the formatter as %r" % (adapter.show_rules, fmt.show_rules))
+    buf = io.StringIO()
+    if hasattr(fmt.stream, "write"):
+        fmt.stream = buf
+    else:
+        problems.append("the formatter's stream is a %s" % type(fmt.stream).__name__)
     dr.run(rs.graph, broker=b)
-    raised = None
-    if nostream:
-        try:
-            adapter.postprocess(b)
-        except Exception as e:
-            raised = type(e).__name__
-    return (lost or nostream), {"formatter.show_rules": repr(adapter.formatter.show_rules), "adapter.show_rules": adapter.show_rules,
-                                "stream": type(adapter.formatter.stream).__name__, "postprocess": raised}
+    try:
+        adapter.postprocess(b)
+        shown = yaml.unsafe_load(buf.getvalue())
+        info["headings"] = sorted(shown) if isinstance(shown, dict) else repr(shown)
+        if not isinstance(shown, dict):
+            problems.append("nothing was printed")
+        else:
+            if [e.get("key") for e in shown.get("pass", [])] != ["K2"]:
+                problems.append("pass asked for, printed %r" % (shown.get("pass"),))
+            if "reports" in shown:
+                problems.append("fail not asked for but 'reports' printed")
+    except Exception as e:
+        info["postprocess"] = type(e).__name__
+        problems.append("postprocess raised %s: %s" % (type(e).__name__, e))
+    return problems, info
 
 
 # --------------------------------------------------------------------------- run
@@ -1092,10 +1113,12 @@ def run(chk):
     chk.witnesses.append({"id": KNOWN_SKIP_STUB, "skips": skips, "reproduces": ok})
     if ok:
         chk.finding_reproduced(KNOWN_SKIP_STUB)
-    ok, info = witness_yaml_adapter()
-    chk.witnesses.append({"id": KNOWN_YAML_ADAPTER, "observed": info, "reproduces": ok})
-    if ok:
-        chk.finding_reproduced(KNOWN_YAML_ADAPTER)
+    # ---- regression (fixed 4daf5f3): the YAML adapter path prints and honours -S
+    problems, info = regression_yaml_adapter()
+    chk.witnesses.append({"fixed": "4daf5f3 yaml adapter arguments", "observed": info, "passes": not problems})
+    if problems:
+        chk.failure("insights-run -f yaml -S pass (YamlFormatterAdapter): " + "; ".join(problems),
+                    {"kind": "yaml-adapter"})
 
     # ---- 2. str(dict) rendering
     cases, lines, impl = [], [], []
@@ -1299,6 +1322,12 @@ def replay(data):
             bad = False
     elif kind == "ruleset":
         bad = bool(replay_ruleset(c["case"])[0])
+    elif kind == "yaml-adapter":
+        problems, info = regression_yaml_adapter()
+        print("observed:", info)
+        for p_ in problems:
+            print("oracle:", p_)
+        bad = bool(problems)
     elif kind == "adapter":
         ad = parse_args(c["fmt"], c)
         print("impl: show_rules=%r missing=%r   expected %r / %r" % (ad.show_rules, ad.missing, spec_show(c), c["missing"]))
